@@ -166,7 +166,7 @@ def many_chunk_cases(etl, rng, ctx, prefix, thorough=False):
 
 
 def view_operand_cases(etl, rng, ctx, ops, ncases, header=('x', 'xy', 'v'), pools=None):
-    """Operands that are themselves sort views (ascending / descending, by the key, by another field whose name starts
+    """Operands that are themselves views — sort views (ascending / descending, by the key, by another field whose name starts
     with the key's, by no key, cached or not) must be treated like the tables they stand for:
     op(view) delivers what op(list(view)) delivers.  `ops`: (name, arity, call(*tables)).  No model involved."""
     from . import gen
@@ -182,8 +182,22 @@ def view_operand_cases(etl, rng, ctx, ops, ncases, header=('x', 'xy', 'v'), pool
         key = rng.choice([hdr[0], hdr[1], tuple(hdr[:2]), None, hdr[2]])
         rev = rng.random() < 0.6
         kw = rng.choice([{}, {'buffersize': 2}, {'cache': False}])
+        present = 'sort(%r, reverse=%r, %r)' % (key, rev, kw)
         try:
-            view = etl.sort(tabs[pos], key, reverse=rev, **kw)
+            if ci % 3 == 2:
+                # other views an operand may be: a table squared up with its own `missing`, a wrapped table, a slice
+                src = [list(r) for r in tabs[pos]]
+                if len(src) > 1 and rng.random() < 0.7:
+                    j = rng.randrange(1, len(src))
+                    src[j] = src[j][:rng.randrange(0, len(hdr))]           # a short row
+                kind = rng.choice(['stack(missing)', 'cat(missing)', 'stack(stack)', 'wrap', 'rowslice', 'cache', 'addfield-cutout'])
+                view = {'stack(missing)': lambda: etl.stack(src, missing='x'), 'cat(missing)': lambda: etl.cat(src, missing='x'),
+                        'stack(stack)': lambda: etl.stack(etl.stack(src, missing='x'), missing='y'), 'wrap': lambda: etl.wrap(src),
+                        'rowslice': lambda: etl.rowslice(src, 0, None), 'cache': lambda: etl.wrap(src).cache(),
+                        'addfield-cutout': lambda: etl.cutout(etl.addfield(src, 'zz', 1), 'zz')}[kind]()
+                present = kind + ' over ' + repr(src)
+            else:
+                view = etl.sort(tabs[pos], key, reverse=rev, **kw)
             mat = [tuple(r) for r in view]
         except Exception:   # noqa
             continue
@@ -196,7 +210,7 @@ def view_operand_cases(etl, rng, ctx, ops, ncases, header=('x', 'xy', 'v'), pool
         if got != want:
             ctx.spec_fail('%s|sort-view-operand' % name,
                           '%s treats an operand that is a sort view differently from the table the view stands for' % name,
-                          {'op': name, 'tables': repr(tabs[:arity]), 'operand': pos, 'presented as': 'sort(%r, reverse=%r, %r)' % (key, rev, kw),
+                          {'op': name, 'tables': repr(tabs[:arity]), 'operand': pos, 'presented as': present,
                            'with the view': got, 'with the materialised view': want})
 
 
@@ -280,3 +294,63 @@ def exotic_key_cases(etl, rng, ctx, pid, ncases):
                                   dict(case, duplicates=repr(dup), unique=repr(uni)))
         except Exception as e:   # noqa
             ctx.spec_fail('%s|exotic-keys|raises' % pid, 'raised %r on key values of an unmodelled but ordered type' % e, case)
+
+
+# ---- the documented order of the optional parameters (as read from the validated source): a call that passes them by
+# position means what the same call with keywords means.  (name -> parameters after the table operands, with defaults)
+SIGNATURES = {
+    'join': [('key', None), ('lkey', None), ('rkey', None), ('presorted', False), ('buffersize', None), ('tempdir', None), ('cache', True), ('lprefix', None), ('rprefix', None)],
+    'leftjoin': [('key', None), ('lkey', None), ('rkey', None), ('missing', None), ('presorted', False), ('buffersize', None), ('tempdir', None), ('cache', True), ('lprefix', None), ('rprefix', None)],
+    'rightjoin': [('key', None), ('lkey', None), ('rkey', None), ('missing', None), ('presorted', False), ('buffersize', None), ('tempdir', None), ('cache', True), ('lprefix', None), ('rprefix', None)],
+    'outerjoin': [('key', None), ('lkey', None), ('rkey', None), ('missing', None), ('presorted', False), ('buffersize', None), ('tempdir', None), ('cache', True), ('lprefix', None), ('rprefix', None)],
+    'antijoin': [('key', None), ('lkey', None), ('rkey', None), ('presorted', False), ('buffersize', None), ('tempdir', None), ('cache', True)],
+    'lookupjoin': [('key', None), ('lkey', None), ('rkey', None), ('missing', None), ('presorted', False), ('buffersize', None), ('tempdir', None), ('cache', True), ('lprefix', None), ('rprefix', None)],
+    'hashjoin': [('key', None), ('lkey', None), ('rkey', None), ('cache', True), ('lprefix', None), ('rprefix', None)],
+    'hashleftjoin': [('key', None), ('lkey', None), ('rkey', None), ('missing', None), ('cache', True), ('lprefix', None), ('rprefix', None)],
+    'sort': [('key', None), ('reverse', False), ('buffersize', None), ('tempdir', None), ('cache', True)],
+    'complement': [('presorted', False), ('buffersize', None), ('tempdir', None), ('cache', True), ('strict', False)],
+    'intersection': [('presorted', False), ('buffersize', None), ('tempdir', None), ('cache', True)],
+    'duplicates': [('key', None), ('presorted', False), ('buffersize', None), ('tempdir', None), ('cache', True)],
+    'unique': [('key', None), ('presorted', False), ('buffersize', None), ('tempdir', None), ('cache', True)],
+    'distinct': [('key', None), ('count', None), ('presorted', False), ('buffersize', None), ('tempdir', None), ('cache', True)],
+    'mergeduplicates': [('key', 'k'), ('missing', None), ('presorted', False), ('buffersize', None), ('tempdir', None), ('cache', True)],
+}
+_SAMPLE_VALUES = {'key': ['k'], 'lkey': ['k'], 'rkey': ['k'], 'missing': ['M', 0], 'presorted': [False], 'buffersize': [1, 2, 5], 'tempdir': [None], 'cache': [False, True],
+                  'lprefix': ['l_'], 'rprefix': ['r_'], 'reverse': [True, False], 'strict': [True, False], 'count': ['n']}
+
+
+def positional_call_cases(etl, rng, ctx, names, ncases, arity):
+    for ci in range(ncases):
+        name = names[ci % len(names)]
+        sig = SIGNATURES[name]
+        tabs = []
+        for j in range(arity):
+            hdr = ['k', 'v'] if j == 0 else ['k', 'w']
+            if name in ('complement', 'intersection'):
+                hdr = ['k', 'v']
+            rows = [[rng.choice([1, 2, 3, None]), rng.choice([0, 1, 5])] for _ in range(rng.choice([0, 1, 3, 5]))]
+            if rng.random() < 0.3 and rows:
+                rows[rng.randrange(len(rows))] = rows[0][:1]        # a short row
+            tabs.append([hdr] + rows)
+        upto = rng.randrange(1, len(sig) + 1)            # how many optional parameters are given
+        chosen = {}
+        for pname, default in sig[:upto]:
+            if pname in ('lkey', 'rkey') and 'key' in chosen and chosen['key'] is not None:
+                chosen[pname] = None
+            elif rng.random() < 0.6 or pname == sig[upto - 1][0]:
+                chosen[pname] = rng.choice(_SAMPLE_VALUES[pname])
+            else:
+                chosen[pname] = default
+        if name.endswith('join') and chosen.get('key') is None and not (chosen.get('lkey') and chosen.get('rkey')):
+            chosen['key'] = 'k'
+            chosen['lkey'] = chosen['rkey'] = None if 'lkey' in chosen or True else None
+        positional = [chosen.get(p, d) for p, d in sig[:upto]]
+        kw = {p: chosen.get(p, d) for p, d in sig[:upto]}
+        fn = getattr(etl, name)
+        a = run_show(lambda: fn(*(tabs + positional)))
+        b = run_show(lambda: fn(*tabs, **kw))
+        ctx.case(('positional', name, repr(tabs), repr(positional)))
+        ctx.count('positional-call')
+        if a != b:
+            ctx.spec_fail('%s|positional-arguments' % name, '%s called with its options by position differs from the same call with keywords (documented parameter order)' % name,
+                          {'op': name, 'tables': repr(tabs), 'positional': repr(positional), 'keywords': repr(kw), 'by position': a, 'by keyword': b})
